@@ -27,8 +27,9 @@ A(Stub(CSSP, "cssp_connect", mod="cssp", verified_in="cssp",
                 "is_prefix(old(link).written(), final(link).written())", "is_suffix(final(link).rest(), old(link).rest())"]))
 
 # ---- link / tpkt upgrade path
-A(Stub(LINK, "start_ssl", impl=r"Link<S>", mod="link", why="native-tls: TlsConnector::connect; an Err is returned when the handshake or (with check_certificate) the certificate validation fails",
-       ensures=["r is Ok ==> !self.tls() && r->Ok_0.tls() && r->Ok_0.cert_checked() == check_certificate && r->Ok_0.written() == self.written() && r->Ok_0.rest() == self.rest()"]))
+# real body, against the native-tls builder / connector stand-ins of prelude/tls.rs (the certificate-validation switch is threaded, a TLS link cannot be upgraded twice)
+A(Fn(LINK, "start_ssl", impl=r"Link<S>", mod="link", props=["C02"],
+     ensures=[("C02", "certificate-validation-iff-requested", "r is Ok ==> !self.tls() && r->Ok_0.tls() && r->Ok_0.cert_checked() == check_certificate && r->Ok_0.written() == self.written() && r->Ok_0.rest() == self.rest()")]))
 A(Raw(r"""
 impl<S: Read + Write + Duplex> Client<S> {
     pub closed spec fn cert_checked(&self) -> bool { self.transport.cert_checked() }
@@ -228,6 +229,9 @@ A(Fn(X224, "read_connection_confirm", impl=r"Client<S>", mod="x224", props=["C02
             (r"let nego = cast!", 1, "proof { assert(nego.fields() == pdu_neg(m)); }")]))
 A(Fn(X224, "connect", impl=r"Client<S>", mod="x224", props=["C02", "C17", "C03"],
      requires=["!tpkt.tls()"],
+     # the dispatch that starts TLS / CredSSP is reached only with a protocol that was offered (no handshake, no NTLM token towards a server that
+     # selected something else: a refusal AFTER the upgrade would already have sent them)
+     claims=[(r"match selected_protocol \{", 1, "proof { assert((selected_protocol as u32) & security_protocols != 0); }", "before", "C02", "upgrade-only-after-the-offer-check")],
      ensures=[("C02", "tls-established", "r is Ok ==> r->Ok_0.tls()"),
               ("C02", "selection-was-offered", "r is Ok ==> (r->Ok_0.selected() as u32) & security_protocols != 0"),
               ("C02", "only-tls-based-protocols", "r is Ok ==> (r->Ok_0.selected() is ProtocolSSL || r->Ok_0.selected() is ProtocolHybrid)"),
